@@ -1,4 +1,5 @@
 import Siot.Lemmas.ConfigField
+import Siot.Lemmas.ConfigDiffMap
 import Siot.Gen.Config
 /-
 C10 — Typed configuration survives Encode/Decode (and Diff/Merge).
@@ -219,6 +220,183 @@ theorem c10_empty_key_counter (N : Num) (hN : NumLaws N) :
   refine ⟨{ points := [{ type := [109], key := [], text := [120] }] }, by simp [encode, encodeFields, encodeField, encMap, keyed, pointFromScalar, widenS, maxStructureSize, collect], ?_⟩
   simp [decode, decodeFields, zero, zeroF, group, atoi, setValue, setMap, setScalar, tombOdd, setKey, maxStructureSize]
 
+/-! ## Diff / Merge -/
+
+/-- keys of flat structs come from the field tag or the camel-cased Go field name: never empty -/
+def KeysOk : FieldTy → Prop
+  | .struct fs => ∀ f ∈ fs, f.1 ≠ []
+  | .ptrStruct fs => ∀ f ∈ fs, f.1 ≠ []
+  | _ => True
+
+/-- **Field diff/merge.** For every field type and every two values of it in the supported universe, `DiffPoints`
+succeeds for the field, emits points of the field's type only, and merging them into the old value gives the new
+one (`FNear`: equal, up to Go's `==` on floats and the order of map entries). -/
+theorem field_diff (N : Num) (hN : NumLaws N) (pt : Bytes) (ty : FieldTy) (b a : FVal) (hb : FOk ty b) (ha : FOk ty a)
+    (hk : KeysOk ty) :
+    ∃ ps, diffField N pt ty b a = .ok ps ∧ (∀ p ∈ ps, p.type = pt) ∧ DiffRT N ty b a ps := by
+  cases ty <;> cases b <;> (try (simp only [FOk] at hb; done)) <;> cases a <;> (try (simp only [FOk] at ha; done))
+  case scalar.scalar.scalar k x y => exact diff_scalar N hN pt k x y (by simpa only [FOk] using ha)
+  case ptr.ptr.ptr k x y =>
+    exact diff_ptr N hN pt k x y (by intro v hv; subst hv; simpa only [FOk] using ha)
+  case slice.slice.slice k x y => exact diff_slice N hN pt k x y hb ha
+  case array.array.array n k x y => exact diff_array N hN pt n k x y hb ha
+  case map.map.map k x y => exact diff_map N hN pt k x y hb ha
+  case struct.struct.struct fs x y => exact diff_struct N hN pt fs x y hb ha hk
+  case ptrStruct.ptrStruct.ptrStruct fs x y => exact diff_ptrStruct N hN pt fs x y hb ha hk
+
+/-- the per-field diff lists line up with the fields: nothing for `edgepoint` fields (DiffPoints skips them), and
+for a `point` field its own points, which merge the old value into the new one -/
+def DAligned (N : Num) : Ty → List FVal → List FVal → List (List Point) → Prop
+  | [], [], [], [] => True
+  | f :: fs, b :: bs, a :: as, l :: ls =>
+    (if f.edge then l = [] else (∀ p ∈ l, p.type = f.ptype) ∧ DiffRT N f.ty b a l) ∧ DAligned N fs bs as ls
+  | _, _, _, _ => False
+
+/-- the merged fields: `point` fields hold the new value, `edgepoint` fields are untouched -/
+def Merged (N : Num) : Ty → List FVal → List FVal → List FVal → Prop
+  | [], [], [], [] => True
+  | f :: fs, b :: bs, a :: as, r :: rs => (if f.edge then r = b else FNear N f.ty r a) ∧ Merged N fs bs as rs
+  | _, _, _, _ => False
+
+theorem diff_ok (N : Num) (hN : NumLaws N) : ∀ (T : Ty) (bs as : List FVal), ValOk T bs → ValOk T as →
+    (∀ f ∈ T, KeysOk f.ty) → ∃ ls, diff N T bs as = .ok ls.flatten ∧ DAligned N T bs as ls := by
+  intro T
+  induction T with
+  | nil =>
+    intro bs as hb ha _
+    cases bs with
+    | nil => cases as with
+      | nil => exact ⟨[], rfl, trivial⟩
+      | cons _ _ => simp [ValOk] at ha
+    | cons _ _ => simp [ValOk] at hb
+  | cons f fs ih =>
+    intro bs as hb ha hk
+    cases bs with
+    | nil => simp [ValOk] at hb
+    | cons b bs =>
+      cases as with
+      | nil => simp [ValOk] at ha
+      | cons a as =>
+        obtain ⟨ls, hls, hal⟩ := ih bs as hb.2 ha.2 (fun g hg => hk g (by simp [hg]))
+        by_cases he : f.edge = true
+        · exact ⟨[] :: ls, by simp [diff, he, hls], by simp only [DAligned, he, if_true]; exact ⟨trivial, hal⟩⟩
+        · obtain ⟨ps, hps, ht, hrt⟩ := field_diff N hN f.ptype f.ty b a hb.1 ha.1 (hk f (by simp))
+          refine ⟨ps :: ls, by simp [diff, he, hps, hls], ?_⟩
+          simp only [DAligned, he, Bool.false_eq_true, if_false]
+          exact ⟨⟨ht, hrt⟩, hal⟩
+
+theorem flatten_filter (N : Num) (pt : Bytes) : ∀ (T : Ty) (bs as : List FVal) (ls : List (List Point)),
+    DAligned N T bs as ls → ls.flatten.filter (fun p => p.type == pt) = pickTag false pt T ls := by
+  intro T
+  induction T with
+  | nil => intro bs as ls h; cases bs <;> cases as <;> cases ls <;> simp [DAligned] at h; rfl
+  | cons f fs ih =>
+    intro bs as ls h
+    cases bs with
+    | nil => simp [DAligned] at h
+    | cons b bs => cases as with
+      | nil => simp [DAligned] at h
+      | cons a as => cases ls with
+        | nil => simp [DAligned] at h
+        | cons l ls =>
+          obtain ⟨hf, hrest⟩ := h
+          have ihr := ih bs as ls hrest
+          simp only [List.flatten_cons, List.filter_append, ihr, pickTag]
+          by_cases he : f.edge = true
+          · simp only [he, if_true] at hf
+            subst hf
+            simp [he]
+          · simp only [he, Bool.false_eq_true, if_false] at hf
+            have he' : f.edge = false := by simpa using he
+            rw [filter_own l pt f.ptype hf.1]
+            simp only [he', true_and]
+            split <;> simp
+
+theorem DAligned.length_eq {N : Num} : ∀ {T : Ty} {bs as : List FVal} {ls : List (List Point)}, DAligned N T bs as ls →
+    T.length = ls.length := by
+  intro T
+  induction T with
+  | nil => intro bs as ls h; cases bs <;> cases as <;> cases ls <;> simp [DAligned] at h; rfl
+  | cons f fs ih =>
+    intro bs as ls h
+    cases bs with
+    | nil => simp [DAligned] at h
+    | cons b bs => cases as with
+      | nil => simp [DAligned] at h
+      | cons a as => cases ls with
+        | nil => simp [DAligned] at h
+        | cons l ls => simp [ih h.2]
+
+/-- merging the diff points field by field -/
+theorem mergeFields (N : Num) (ne : NodeEdge) (hne : ne.edgePoints = []) (T0 : Ty) (ls0 : List (List Point))
+    (hpts : ∀ pt, ne.points.filter (fun p => p.type == pt) = pickTag false pt T0 ls0) :
+    ∀ (T : Ty) (bs as : List FVal) (ls : List (List Point)), DAligned N T bs as ls →
+      (∀ f l, (f, l) ∈ T.zip ls → f.edge = false → pickTag false f.ptype T0 ls0 = l) →
+      ∃ rs, decodeFields N ne T bs = (rs, false, none) ∧ Merged N T bs as rs := by
+  intro T
+  induction T with
+  | nil => intro bs as ls h _; cases bs <;> cases as <;> cases ls <;> simp [DAligned] at h; exact ⟨[], rfl, trivial⟩
+  | cons f fs ih =>
+    intro bs as ls h hpick
+    cases bs with
+    | nil => simp [DAligned] at h
+    | cons b bs => cases as with
+      | nil => simp [DAligned] at h
+      | cons a as => cases ls with
+        | nil => simp [DAligned] at h
+        | cons l ls =>
+          obtain ⟨hf, hrest⟩ := h
+          obtain ⟨rs, hrs, hm⟩ := ih bs as ls hrest (fun g m hg => hpick g m (by simp [hg]))
+          by_cases he : f.edge = true
+          · have hgrp : group f.ptype (if f.edge then ne.edgePoints else ne.points) = none := by
+              rw [group_eq]; simp [he, hne]
+            refine ⟨b :: rs, by simp only [decodeFields, hgrp, hrs]; rfl, ?_⟩
+            simp only [Merged, he, if_true]
+            exact ⟨trivial, hm⟩
+          · have he' : f.edge = false := by simpa using he
+            simp only [he, Bool.false_eq_true, if_false] at hf
+            have hl : pickTag false f.ptype T0 ls0 = l := hpick f l (by simp) he'
+            have hgrp : group f.ptype (if f.edge then ne.edgePoints else ne.points) =
+                if l.isEmpty then none else some (l.foldl groupStep {}) := by
+              rw [group_eq]
+              simp only [he, Bool.false_eq_true, if_false, hpts f.ptype, hl]
+            rcases hf.2 with ⟨hnil, hnear⟩ | ⟨hnn, r, hsv, hnear⟩
+            · subst hnil
+              refine ⟨b :: rs, by simp only [decodeFields, hgrp, List.isEmpty_nil, if_true, hrs]; rfl, ?_⟩
+              simp only [Merged, he, Bool.false_eq_true, if_false]
+              exact ⟨hnear, hm⟩
+            · have : l.isEmpty = false := by cases l with
+                | nil => exact absurd rfl hnn
+                | cons _ _ => rfl
+              refine ⟨r :: rs, by simp only [decodeFields, hgrp, this, Bool.false_eq_true, if_false, hsv, hrs]; rfl, ?_⟩
+              simp only [Merged, he, Bool.false_eq_true, if_false]
+              exact ⟨hnear, hm⟩
+
+/-- **C10 (second half): Merge ∘ Diff.** For every supported configuration type `T` with distinct tags and every
+ordered pair of values `b` (before), `a` (after) of `T` in the supported universe — sizes ≤ 1000, integers within
+±(2^53−1), non-empty unique map keys — `DiffPoints b a` succeeds, and `MergePoints` of the produced points into `b`
+reports no error and leaves every `point` field holding the value it has in `a` (`Merged` / `FNear`): scalars and
+struct fields equal (for floats: equal or `==`, since no point is emitted for a field Go calls unchanged), pointers
+equal including nil, slices of the new length with the new elements whether they grew or shrank, arrays element by
+element, maps with exactly the new key set (removed entries gone) — and every `edgepoint` field untouched. -/
+theorem c10_merge_diff (N : Num) (hN : NumLaws N) (T : Ty) (b a : Val)
+    (hd : TagsDistinct T) (hk : ∀ f ∈ T, KeysOk f.ty) (hb : ValOk T b.fields) (ha : ValOk T a.fields) (hid : b.id ≠ []) :
+    ∃ pts, diff N T b.fields a.fields = .ok pts ∧
+      ∃ r, mergePoints N T b.id pts b = some { val := { id := b.id, parent := b.parent, fields := r }, err := false, panic := none } ∧
+        Merged N T b.fields a.fields r := by
+  obtain ⟨ls, hls, hal⟩ := diff_ok N hN T b.fields a.fields hb ha hk
+  refine ⟨ls.flatten, hls, ?_⟩
+  obtain ⟨rs, hrs, hm⟩ := mergeFields N { id := b.id, points := ls.flatten } rfl T ls
+    (fun pt => flatten_filter N pt T b.fields a.fields ls hal) T b.fields a.fields ls hal
+    (fun f l hfl he => by have := pickTag_self T ls hal.length_eq hd f l hfl; rw [he] at this; exact this)
+  refine ⟨rs, ?_, hm⟩
+  have hie : b.id.isEmpty = false := by
+    cases hbi : b.id with
+    | nil => exact absurd hbi hid
+    | cons _ _ => rfl
+  simp only [mergePoints, hie, Bool.false_eq_true, ne_eq, not_true_eq_false, or_self, if_false, decode, hrs,
+    List.isEmpty_nil, if_true]
+
 /-- non-vacuity: a type with a slice, a map, a pointer and an edge field; a value of it satisfies the
     hypotheses of `c10_decode_encode` -/
 example :
@@ -227,5 +405,16 @@ example :
     TagsDistinct T ∧ ValOk T v := by
   refine ⟨by simp [TagsDistinct], ?_⟩
   simp [ValOk, FOk, SOk, fitsInt, fitsUint, maxSafeInteger]
+
+/-- non-vacuity of `c10_merge_diff`: a slice that shrinks, a map entry that is removed, a pointer that becomes nil and
+    a flat struct — both values satisfy the hypotheses -/
+example :
+    let T : Ty := [⟨false, [97], .slice (.int 32)⟩, ⟨false, [98], .map .str⟩, ⟨false, [99], .ptr .bool⟩,
+                   ⟨false, [100], .struct [([107], .f64), ([108], .str)]⟩]
+    let b : List FVal := [.slice [.i 5, .i (-7), .i 9], .map [([107], .s [120]), ([109], .s [])], .ptr (some (.b true)), .struct [.f 0, .s [1]]]
+    let a : List FVal := [.slice [.i 5], .map [([109], .s [121])], .ptr none, .struct [.f 1, .s [1]]]
+    TagsDistinct T ∧ (∀ f ∈ T, KeysOk f.ty) ∧ ValOk T b ∧ ValOk T a := by
+  refine ⟨by simp [TagsDistinct], by simp [KeysOk]; rintro a b (⟨rfl, _⟩ | ⟨rfl, _⟩) <;> simp, ?_, ?_⟩ <;>
+    simp [ValOk, FOk, SOk, fitsInt, fitsUint, maxSafeInteger]
 
 end Siot.Config
